@@ -72,12 +72,14 @@ class Sight:
         # adjust reticle scale relative to target distance and magnification
         def get_sfp_step(click_size: Angular):
             # Don't need distances conversion cause of it's destroying there
-            return click_size.units(
-                click_size.unit_value
+            # scale the angle itself: scaling the value in the display unit is not linear for the tangent-based
+            # units (inch/100yd, cm/100m), and the display unit follows PreferredUnits.adjustment
+            return Angular.Radian(
+                click_size.raw_value
                 * self.scale_factor.raw_value
                 / _td.raw_value
                 * magnification
-            )
+            ) << click_size.units
 
         _td = PreferredUnits.distance(target_distance)
         _h_step = get_sfp_step(self.h_click_size)
